@@ -240,7 +240,7 @@ def run(spec, ctx):
         for i in range(spec["n"]):
             table, strings = iogen.gen_table(rng), iogen.gen_strings(rng)
             hdr, sf = os.path.join(root, "t%d.h" % (i % 2)), os.path.join(root, "s%d" % (i % 2))   # reused paths, rewritten files
-            im.write_pte_table(hdr, table, rng, style=rng.randrange(4) | (16 if rng.random() < 0.2 else 0))
+            im.write_pte_table(hdr, table, rng, style=rng.randrange(4) | (16 if rng.random() < 0.2 else 0) | (128 if rng.random() < 0.2 else 0))
             im.write_string_file(sf, strings, rng)
             for k in range(12):
                 drive(ctx, dump, rng, hdr, sf, iogen.model_table(table), iogen.model_strings(strings), root, "syn%d" % i, i * 12 + k)
